@@ -600,7 +600,8 @@ def execute(w: World, op):
             pk = key["id"]
             cf = w.calc_fn(w.calcs[ti])
             try:
-                fb = "(Some " + H.coq_did(hash(pk) if cf is None else cf(t, pk)) + ")"
+                v = hash(pk) if cf is None else cf(t, pk)
+                fb = "(Some " + H.coq_did(v) + ")" if isinstance(v, (int, str)) else "None"    # unhashable answer: unusable
             except CallbackFault:
                 fb = "None"
             coq = f"(ODel {ti} (KDid {H.coq_did(pk)} {fb}))"
